@@ -654,6 +654,10 @@ def c19(run):
     run.add_mismatches(res["mismatches"])
     run.part("MC_NamesExport (relation compared pairwise, laws recorded)", scenarios=res["scenarios"], universe=len(g["records"]) - 5)
     validate(run, "Trace_PathLaws", res["log"], "C19.path_laws", what="path-law recording")
+    # (iii') the relation as the archive writers use it: inputs given as bare names and with directory parts must be ordered, and their
+    # duplicates detected, by file name alone (the comparator itself is not public; it is observed through VolFile::CreateArchive)
+    run.scen("MC_Vol", dict(VOL_NORAND, MaxFiles=1, Big="FALSE"), invariants=VOL_INV, workers=4, own=by_prefix("vol_create", "file_eq", "vol_open", "scenario"),
+             name="MC_Vol (member order and duplicate detection through the writer, mixed path forms)")
     # (iv) powers of two: all 2^32 inputs against the exponent set exported by TLC
     rr = vlib.generate("MC_NamesExport", {"MaxLen": 0}, invariants=("Export",), tag="P")
     exps = rr["records"][0]["exponents"]
